@@ -547,6 +547,7 @@ def run(scenario, world):
     triples = []
     prev = 'init'
     n_orig = len(s.names)
+    states = set()
     check_names(s, ref, -1)
     released_all = 0
     for step, op in enumerate(scenario['ops']):
@@ -595,7 +596,10 @@ def run(scenario, world):
         triples.append((prev, k + ':' + str(op.get('kind', '')), s.kind))
         prev = k
         check_names(s, ref, step)
-    return {'triples': triples}
+        states.add('%s|%d|%s' % (recipe_tag(scenario), n_orig,
+                                 ','.join(map(str, sorted(ref)))))
+    return {'triples': triples,
+            'extra': {'fixed_sets_reached': sorted(states)}}
 
 
 # ---------------------------------------------------------------------------
